@@ -22,8 +22,11 @@ type schedParams struct {
 	Init    []string   `json:"init"`    // run by the main thread before the others start
 	Threads [][]string `json:"threads"` // one harness thread each
 	Final   []string   `json:"final"`   // run by the main thread after the join (e.g. T, Q, X)
-	Checks  []string   `json:"checks"`  // oracles: "counters", "integrity", "fresh"
+	Checks  []string   `json:"checks"`  // oracles: "counters", "integrity"
 	Prop    string     `json:"prop"`
+	// ExpectPresent: keys that must be retrievable at the end in every schedule (C13:
+	// a fresh entry is never removed by the cleanup path).
+	ExpectPresent []string `json:"expect_present"`
 }
 
 func init() {
@@ -90,6 +93,11 @@ func scenarioSched(c *vrun.Ctx) {
 				if has("counters") {
 					if prob := r.end.countersProblem(r.h.file != nil, false); prob != "" {
 						c.Violation("C12/"+p.Name+"/"+classify(prob), prob+" after "+r.history(), x)
+					}
+				}
+				for _, k := range p.ExpectPresent {
+					if _, ok := r.end.Retrievable[k]; !ok {
+						c.Violation("C13/"+p.Name+"/fresh-entry-removed", "entry "+k+" was stored fresh and nothing but the cleanup cycle could remove it, yet it is gone at the end: "+r.history(), x)
 					}
 				}
 				if has("integrity") {
